@@ -164,7 +164,9 @@ func (c *popCtx) value(t *Type, elems int) any {
 		return float64(c.next()) + 0.5
 	case KUuid:
 		var u [16]byte
-		b := byte(c.next())
+		// all populated payload bytes stay below 0x80 so that no run of them
+		// can be mistaken for a multi-byte varint by a shifted parse (C16)
+		b := byte(c.next() % 100)
 		for i := range u {
 			u[i] = b + byte(i)
 		}
@@ -172,7 +174,7 @@ func (c *popCtx) value(t *Type, elems int) any {
 	case KString, KVarintString:
 		return Str{S: fmt.Sprintf("s%d", c.next())}
 	case KBytes, KVarintBytes, KRaw:
-		n := byte(c.next())
+		n := byte(c.next() % 100)
 		return Byt{B: []byte{n, n + 1, n + 2}}
 	case KArray:
 		a := &Arr{E: []any{}}
@@ -192,8 +194,8 @@ func (c *popCtx) structValue(s *Struct, elems int) *SVal {
 		v.F[i] = c.value(f.Type, elems)
 	}
 	if s.FlexibleAt >= 0 {
-		n := byte(c.next())
-		v.Unknown = []UTag{{unknownKey, []byte{n, n ^ 0xff}}}
+		n := byte(c.next() % 100)
+		v.Unknown = []UTag{{unknownKey, []byte{n, n ^ 0x7f}}}
 	}
 	return v
 }
